@@ -141,6 +141,27 @@ pub fn single_mutations(base: &[Token], pool: &Pool, r: &mut Rng, full: bool) ->
             at: n,
         });
     }
+    // terminator / marker look-alikes inside a field's content (all are content for the reference
+    // tokeniser: the block terminator is only the final line, a field starts only with :NN[A-Z]?:)
+    for pos in 0..n {
+        for (kind, extra) in [
+            ("dash-line-inside", "\n-\nTEXT AFTER DASH LINE"),
+            ("colon-line-inside", "\n:NOT A TAG: TEXT"),
+            ("dash-brace-inside", "\nTEXT -} MORE"),
+        ] {
+            let mut f = base.to_vec();
+            f[pos].content.push_str(extra);
+            out.push(Mutant { kind, fields: f, at: pos });
+        }
+    }
+    // more lines than any documented maximum
+    for pos in 0..n {
+        let mut f = base.to_vec();
+        for k in 0..40 {
+            f[pos].content.push_str(&format!("\nEXTRA LINE {k}"));
+        }
+        out.push(Mutant { kind: "extra-40-lines", fields: f, at: pos });
+    }
     // junk line after each field (becomes part of its content for the tokeniser)
     for pos in 0..n {
         let mut f = base.to_vec();
